@@ -647,6 +647,39 @@ pub fn dispatch(kind: &str, a: &[&str]) -> Option<String> {
                 _ => "invalid".into(),
             }
         }
+        // wave 6 (s_c13): the text sits at offset `pre` inside a larger buffer whose neighbours are digits (a parser that
+        // looks past either end of its slice would read them); parsed as &[u8] sub-slice, as &str sub-slice and as an
+        // owned copy: "<slice> | <str> | <owned>" (implementation-only kind)
+        ("dt.parse_at", [which, pre, hx, suf]) => {
+            let (pre, suf): (usize, usize) = (p(pre)?, p(suf)?);
+            let s = unhex(hx);
+            let mut buf: Vec<u8> = vec![b'1'; pre];
+            buf.extend_from_slice(&s);
+            buf.extend(std::iter::repeat(b'7').take(suf));
+            let sl = &buf[pre..pre + s.len()];
+            let one = |r: Option<Any>| r.map(|x| x.show()).unwrap_or_else(|| "none".into());
+            let bytes = |b: &[u8]| -> Option<String> {
+                Some(one(match *which {
+                    "date" => Date::parse(b).ok().map(Any::D),
+                    "dh" => DateHour::parse(b).ok().map(Any::H),
+                    "ud" => UniformDate::parse(b).ok().map(Any::U),
+                    "raw" => RawDate::parse(b).ok().map(Any::R),
+                    _ => return None,
+                }))
+            };
+            let a = bytes(sl)?;
+            let b = match std::str::from_utf8(sl) {
+                Err(_) => "nonutf8".to_string(),
+                Ok(t) => one(match *which {
+                    "date" => Date::parse(t).ok().map(Any::D),
+                    "dh" => DateHour::parse(t).ok().map(Any::H),
+                    "ud" => UniformDate::parse(t).ok().map(Any::U),
+                    _ => RawDate::parse(t).ok().map(Any::R),
+                }),
+            };
+            let c = bytes(&s.clone())?;
+            format!("{} | {} | {}", a, b, c)
+        }
         ("dt.sweep_dates", [lo, hi, hours]) => sweep_dates(p(lo)?, p(hi)?, *hours == "1"),
         ("dt.sweep_bin", [lo, n]) => sweep_bin(p(lo)?, p(n)?),
         ("dt.sweep_fast", [mode, lo, hi]) => sweep_fast(mode, p(lo)?, p(hi)?),
